@@ -2,6 +2,7 @@
 import StubGen.Driver.Json
 import StubGen.Driver.ApiJson
 import StubGen.Driver.DocJson
+import StubGen.Driver.SrcJson
 import StubGen.Model.Naming
 import StubGen.Model.Types
 import StubGen.Model.Discovery
@@ -27,6 +28,7 @@ def handle (j : Json) : Json :=
                            ("refl", .bool (t.pyEq t))]
   | "gen" => runGen j
   | "doc" => runDoc j
+  | "analyze" => runAnalyze j
   | "discover" =>
     let parts := fun (x : Json) => match x with
       | .arr a => a.toList.filterMap fun y => match y with | .str s => some s | _ => none
